@@ -275,6 +275,15 @@ def run_subsets(desc):
     out = Outcome()
     out.exhaustive = True
     s, S = desc['shard'], desc['of']
+    if s == 0:
+        # empty / catch-all patterns on the trees whose names hold a newline or end in a backslash
+        for ti in (14, 15):
+            with FC.built_tree(T.CATALOGUE[ti]) as (root2, _r2):
+                for fpat, epat in (('', ''), ('*', ''), ('', 'zz'), ('!zz', ''), ('*|!zz', '')):
+                    for names in ([], ['RECURSIVE'], ['RECURSIVE', 'HIDDEN'], ['RECURSIVE', 'FILEPATHNAME', 'HIDDEN'], ['RECURSIVE', 'HIDDEN', 'SYMLINKS']):
+                        r = check_case(root2, T.CATALOGUE[ti], fpat, epat, names, out, {'stream': 'odd-names'})
+                        if r is not None and r[0]:
+                            out.nontrivial(('odd-names', ti, fpat, epat, tuple(names)))
     with FC.built_tree(FIXED_TREE) as (root, _r):
         idx = 0
         for i in range(4096):
@@ -299,7 +308,9 @@ def run_subsets(desc):
 def run_hyp(desc):
     from hypothesis import given, strategies as st, seed
     out = Outcome()
-    trees = st.one_of(st.sampled_from([T.CATALOGUE[1], T.CATALOGUE[2], T.CATALOGUE[6], T.CATALOGUE[9], T.CATALOGUE[4], FIXED_TREE]), T.st_tree(False))
+    # (catalogue trees 14 and 15 have names with a newline / a trailing backslash: ordinary characters for a file name)
+    trees = st.one_of(st.sampled_from([T.CATALOGUE[1], T.CATALOGUE[2], T.CATALOGUE[6], T.CATALOGUE[9], T.CATALOGUE[4], FIXED_TREE, T.CATALOGUE[14],
+                                       T.CATALOGUE[15]]), T.st_tree(False))
 
     def pieces(spec):
         names = sorted({os.path.basename(e[1]) for e in spec} | {'zz'})
